@@ -459,6 +459,9 @@ func (x *cliCtx) runPhaseCli(r *gen.Rand, cmdName string, round int) {
 	c := x.c
 	translate := cmdName == "phase"
 	pc := genPhaseCase(r, 8)
+	if n := len(pc.Seqs); n > 0 && pc.Seqs[n-1].Junk {
+		pc.Seqs = pc.Seqs[:n-1] // what the commands do with a removed sequence (log, files) is not modelled here
+	}
 	pc.Translate = translate
 	pc.Reverse = round%2 == 1
 	pc.CutEnd = (round/2)%2 == 1
